@@ -10,6 +10,14 @@
 #include "default_allocator.hpp"
 #include "error.hpp"
 
+#if defined(FOONATHAN_MEMORY_VERIF) && FOONATHAN_MEMORY_TEMPORARY_STACK_MODE >= 2
+// default of the verification hook: does nothing, a verification harness provides a strong definition
+extern "C" __attribute__((weak)) void foonathan_memory_verif_point(int, const void*, long) {}
+#define FOONATHAN_MEMORY_VERIF_POINT(Kind, Obj) foonathan_memory_verif_point(Kind, Obj, 0)
+#else
+#define FOONATHAN_MEMORY_VERIF_POINT(Kind, Obj)
+#endif
+
 using namespace foonathan::memory;
 
 namespace
@@ -68,7 +76,11 @@ void detail::temporary_block_allocator::deallocate_block(memory_block block)
 static class detail::temporary_stack_list
 {
 public:
+#if defined(FOONATHAN_MEMORY_VERIF)
+    detail::verif_atomic<temporary_stack_list_node*> first;
+#else
     std::atomic<temporary_stack_list_node*> first;
+#endif
 
     temporary_stack* create_new(std::size_t size)
     {
@@ -120,6 +132,7 @@ public:
 
             ptr = next;
         }
+        FOONATHAN_MEMORY_VERIF_POINT(13, this);
 
         FOONATHAN_MEMORY_ASSERT_MSG(!first.load(),
                                     "destroy() called while other threads are still running");
@@ -135,6 +148,7 @@ namespace
     {
         ~thread_exit_detector_t() noexcept
         {
+            FOONATHAN_MEMORY_VERIF_POINT(11, temp_stack);
             if (temp_stack)
                 // clear automatically on thread exit, as the initializer's destructor does
                 // note: if another's thread_local variable destructor is called after this one
@@ -161,6 +175,7 @@ detail::temporary_allocator_dtor_t::temporary_allocator_dtor_t() noexcept
 
 detail::temporary_allocator_dtor_t::~temporary_allocator_dtor_t() noexcept
 {
+    FOONATHAN_MEMORY_VERIF_POINT(12, temp_stack);
     if (--nifty_counter == 0u && temp_stack)
         temporary_stack_list_obj.destroy();
 }
@@ -169,6 +184,7 @@ temporary_stack_initializer::temporary_stack_initializer(std::size_t initial_siz
 {
     if (!temp_stack)
         temp_stack = temporary_stack_list_obj.create(initial_size);
+    FOONATHAN_MEMORY_VERIF_POINT(10, temp_stack);
 }
 
 temporary_stack_initializer::~temporary_stack_initializer() noexcept
@@ -183,6 +199,7 @@ temporary_stack& foonathan::memory::get_temporary_stack(std::size_t initial_size
 {
     if (!temp_stack)
         temp_stack = temporary_stack_list_obj.create(initial_size);
+    FOONATHAN_MEMORY_VERIF_POINT(10, temp_stack);
     return *temp_stack;
 }
 
